@@ -263,7 +263,7 @@ def run(tier, out, replay=None):
             adj, init, nlabels = graph.parse_dot(dump + ".dot", want_labels=True)
             os.remove(dump + ".dot")
             adj, nodeops = graph.relabel_by_dst_op(adj, nlabels)
-            walks, covered, total = graph.cover_walks(adj, init, rng, 400000 if thorough else 8000, max_len=40)
+            walks, covered, total = graph.cover_walks(adj, init, rng, 100000 if thorough else 8000, max_len=40)
             out.add("graph_edges_total", total)
             out.add("graph_edges_replayed", covered)
             ops_list = [[eval(l) for l in w] for w in walks]
